@@ -41,6 +41,7 @@ def val? (s : String) : Option PyVal :=
   | some 'j' => (decodeCps? r).map .json
   | some 'p' => (decodeCps? r).map .pickled
   | some 'o' => r.toInt?.map .sqlobj
+  | some 'O' => (decodeCps? r).map .sqlobjS
   | some 'x' => some .other
   | _ => none
 
@@ -65,6 +66,7 @@ def showVal : PyVal → String
   | .json t => "j" ++ encodeCps t
   | .pickled b => "p" ++ encodeCps b
   | .sqlobj id => "o" ++ toString id
+  | .sqlobjS id => "O" ++ encodeCps id
   | .other => "x"
 
 def showRes {α} (f : α → String) : Res α → String
@@ -89,7 +91,7 @@ def colT? (s : String) : Option ColT :=
   | "dateTime" => some .dateTime | "date" => some .date | "time" => some .time | "timestamp" => some .timestamp
   | "decimal" => some .decimal | "currency" => some .currency | "decimalString" => some .decimalString
   | "blob" => some .blob | "pickle" => some .pickle | "uuid" => some .uuid | "json" => some .json
-  | "fkInt" => some .fkInt
+  | "fkInt" => some .fkInt | "fkStr" => some .fkStr | "fkIntS" => some .fkIntS
   | _ =>
     if s.startsWith "enum:" then
       let body := String.ofList (s.toList.drop 5)
